@@ -15,6 +15,10 @@ use std::sync::atomic::{AtomicU64, AtomicUsize, Ordering};
 use std::time::Duration;
 use vh::core::*;
 
+#[path = "../loom_child.rs"]
+mod loom_child;
+use loom_child::run_loom;
+
 const SEQS: [u64; 6] = [0, 1, 2, 3, 5, u64::MAX];
 const PEERS: [u8; 2] = [0xA1, 0xB2];
 
@@ -173,6 +177,10 @@ thread_local! {
     static WORKER: std::cell::Cell<usize> = const { std::cell::Cell::new(usize::MAX) };
     static RT: tokio::runtime::Runtime = tokio::runtime::Builder::new_current_thread().enable_time().build().expect("runtime");
 }
+thread_local! {
+    /// oracle evaluations of the replay in progress; added to the run's count only if the replay is not repeated
+    static PENDING_EVALS: std::cell::Cell<u64> = const { std::cell::Cell::new(0) };
+}
 static NEXT_WORKER: AtomicUsize = AtomicUsize::new(0);
 
 fn worker_path(root: &PathBuf) -> PathBuf {
@@ -195,6 +203,9 @@ fn root_ref(root: usize) -> RefState {
 }
 fn write_root_file(root: usize, path: &PathBuf, t0: u64) {
     let _ = std::fs::remove_file(path);
+    if let Some(dir) = path.parent() {
+        let _ = std::fs::create_dir_all(dir);
+    }
     if root == 1 {
         let ts = t0 - 4000;
         let mut m: HashMap<UserId, PeerCounter> = HashMap::new();
@@ -209,7 +220,9 @@ fn write_root_file(root: usize, path: &PathBuf, t0: u64) {
                 sequence_gaps: 0,
             },
         );
-        std::fs::write(path, postcard::to_stdvec(&m).expect("postcard")).expect("write root store");
+        if let Err(e) = std::fs::write(path, postcard::to_stdvec(&m).unwrap_or_default()) {
+            machinery_exit(&format!("cannot write initial store {}: {e}", path.display()));
+        }
     }
 }
 fn root_json(root: usize) -> Value {
@@ -226,7 +239,7 @@ enum StepOut {
 /// Judge one submission result against the reference (state before: `last`, `rs` for reload marks).
 #[allow(clippy::too_many_arguments)]
 fn judge_submission(cx: &Ctx, entry: &str, rs: &RefState, req: &Req, must_accept: bool, last_before: u64, got: &SequenceValidationResult, wit: &dyn Fn() -> Value) -> bool {
-    cx.distinct.eval();
+    PENDING_EVALS.with(|c| c.set(c.get() + 1));
     let app = applicable(last_before, req);
     cx.distinct.outcome(&(entry.to_string(), class(got), app.clone(), must_accept));
     let got_c = class(got);
@@ -286,6 +299,7 @@ async fn sync_via_task(sys: &mut MonotonicCounterSystem) -> bool {
             break;
         }
         tokio::task::yield_now().await;
+        std::thread::yield_now(); // let the blocking-pool thread doing the file write run
     }
     sys.stop_sync_task().await;
     ok
@@ -391,7 +405,7 @@ async fn step_async(cx: &Ctx<'_>, root: usize, ops: &[Op], h: &[usize], path: &P
                     if now() != t0 {
                         return StepOut::Retry;
                     }
-                    cx.distinct.eval();
+                    PENDING_EVALS.with(|c| c.set(c.get() + 1));
                     let removed: usize = (0..2).map(|p| norm(&before[p]).1.len().saturating_sub(norm(&after[p]).1.len())).sum();
                     cx.distinct.outcome(&("cleanup", removed, got.is_ok()));
                     for p in 0..2 {
@@ -440,7 +454,7 @@ async fn step_async(cx: &Ctx<'_>, root: usize, ops: &[Op], h: &[usize], path: &P
                     if now() != t0 {
                         return StepOut::Retry;
                     }
-                    cx.distinct.eval();
+                    PENDING_EVALS.with(|c| c.set(c.get() + 1));
                     cx.distinct.outcome(&(entry, norm(&after[0]).0, norm(&after[1]).0, norm(&before[0]).0, norm(&before[1]).0));
                     for p in 0..2 {
                         let want = ref_view(&rs.live[p]);
@@ -491,7 +505,9 @@ async fn step_async(cx: &Ctx<'_>, root: usize, ops: &[Op], h: &[usize], path: &P
         }
     }
     drop(sys);
-    if let Ok(sys2) = open(path).await {
+    if file.is_none() {
+        probe.push("no-store-file".into());
+    } else if let Ok(sys2) = open(path).await {
         for p in 0..2 {
             for s in [1u64, 2, 3, 4] {
                 probe.push(format!("{:?}", sys2.validate_sequence(&uid(p), s, hash(1)).await.ok()));
@@ -545,7 +561,11 @@ fn judge_state(cx: &Ctx, entry: &str, subs: &[(Req, bool)], before: &[View; 2], 
 fn step(cx: &Ctx, root: usize, ops: &[Op], h: &[usize]) -> Option<(Vec<u8>, u64)> {
     let path = worker_path(&cx.root_dir);
     for _ in 0..50 {
+        PENDING_EVALS.with(|c| c.set(0));
         let r = catch(|| RT.with(|rt| rt.block_on(step_async(cx, root, ops, h, &path))));
+        if !matches!(r, Ok(StepOut::Retry)) {
+            cx.distinct.evals_add(PENDING_EVALS.with(|c| c.get()));
+        }
         match r {
             Ok(StepOut::Retry) => {
                 cx.run.info("replays_repeated_because_a_second_boundary_was_crossed");
@@ -574,111 +594,6 @@ fn step(cx: &Ctx, root: usize, ops: &[Op], h: &[usize]) -> Option<(Vec<u8>, u64)
     None
 }
 
-// ---------------------------------------------------------------------------------------------
-// loom children
-
-struct LoomOut {
-    states: u64,
-    bodies: Vec<Value>,
-    incomplete: Vec<String>,
-}
-
-fn run_loom(run: &Run, prop: &str, budget_secs: u64) -> LoomOut {
-    let mut out = LoomOut { states: 0, bodies: Vec::new(), incomplete: Vec::new() };
-    let Ok(exe) = std::env::var("VH_LOOM_EXE") else {
-        run.machinery_error("VH_LOOM_EXE not set: the loom part (schedules) did not run; start through /verif/check");
-        return out;
-    };
-    let list = match std::process::Command::new(&exe).arg("list").output() {
-        Ok(o) if o.status.success() => String::from_utf8_lossy(&o.stdout).to_string(),
-        other => {
-            run.machinery_error(format!("cannot list loom bodies of {exe}: {other:?}"));
-            return out;
-        }
-    };
-    let bodies: Vec<(String, u64, String)> = list
-        .lines()
-        .filter_map(|l| l.strip_prefix("BODY "))
-        .filter_map(|j| serde_json::from_str::<Value>(j).ok())
-        .map(|v| (v["name"].as_str().unwrap_or("").to_string(), v["threads"].as_u64().unwrap_or(0), v["ops"].as_str().unwrap_or("").to_string()))
-        .collect();
-    if bodies.is_empty() {
-        run.machinery_error("loom binary lists no bodies");
-        return out;
-    }
-    // quick: preemption bound 2. thorough: bound 3, plus unbounded for the 2-thread bodies.
-    let mut jobs: Vec<(String, String, String)> = Vec::new();
-    for (name, threads, ops) in &bodies {
-        if run.tier == Tier::Quick {
-            jobs.push((name.clone(), "2".into(), ops.clone()));
-        } else {
-            jobs.push((name.clone(), "3".into(), ops.clone()));
-            if *threads == 2 {
-                jobs.push((name.clone(), "unbounded".into(), ops.clone()));
-            }
-        }
-    }
-    let results = par_map(jobs.len(), |i| {
-        let (name, bound, _) = &jobs[i];
-        std::process::Command::new(&exe)
-            .args(["run", name, "--preemptions", bound, "--max-secs", &budget_secs.to_string()])
-            // keep glibc from returning/re-mapping the large per-iteration allocations (LruCache pre-sizing)
-            .env("MALLOC_TRIM_THRESHOLD_", "2000000000")
-            .env("MALLOC_MMAP_THRESHOLD_", "1000000000")
-            .env("MALLOC_TOP_PAD_", "67108864")
-            .output()
-    });
-    for (i, r) in results.into_iter().enumerate() {
-        let (name, bound, ops) = &jobs[i];
-        let o = match r {
-            Ok(o) => o,
-            Err(e) => {
-                run.machinery_error(format!("cannot spawn loom body {name}: {e}"));
-                continue;
-            }
-        };
-        let stdout = String::from_utf8_lossy(&o.stdout).to_string();
-        let stderr = String::from_utf8_lossy(&o.stderr).to_string();
-        let line = stdout.lines().find_map(|l| l.strip_prefix("LOOM ")).and_then(|j| serde_json::from_str::<Value>(j).ok());
-        let tail = |s: &str| s.chars().rev().take(3000).collect::<String>().chars().rev().collect::<String>();
-        match line {
-            Some(v) => {
-                let iters = v["iterations"].as_u64().unwrap_or(0);
-                out.states += iters;
-                let complete = v["complete"].as_bool().unwrap_or(false);
-                if !complete {
-                    out.incomplete.push(format!("{name}@{bound}"));
-                }
-                out.bodies.push(json!({"body": name, "preemption_bound": bound, "iterations": iters, "complete": complete, "secs": v["secs"],
-                    "distinct_outcomes": v["outcomes"].as_object().map(|m| m.len()).unwrap_or(0), "expected_outcomes": v["expected"].as_array().map(|a| a.len()).unwrap_or(0),
-                    "unseen_expected_outcomes": v["unseen"], "verdict": v["verdict"]}));
-                if v["verdict"] != "ok" || !o.status.success() {
-                    let clause = v["violations"][0]["clause"].as_str().unwrap_or("sched-atomic").to_string();
-                    run.violation_lazy(&format!("{prop}.{clause}"), feats(&[("entry", "loom".into()), ("body", name.clone())]), || {
-                        (
-                            json!({"engine": "loom", "body": name, "threads_ops": ops, "preemption_bound": bound, "replay": format!("{exe} run {name} --preemptions {bound}"), "report": v}),
-                            format!("loom body {name} (preemption bound {bound}): {} of {} schedules violate {clause}: {}", v["violating_iterations"], iters, v["violations"][0]["why"].as_str().unwrap_or("")),
-                        )
-                    });
-                }
-            }
-            None => {
-                if stderr.contains("exceeded maximum number of branches") || o.status.code() == Some(2) {
-                    run.machinery_error(format!("loom body {name}@{bound}: {}", tail(&stderr)));
-                } else {
-                    run.violation_lazy(&format!("{prop}.sched-abort"), feats(&[("entry", "loom".into()), ("body", name.clone())]), || {
-                        (
-                            json!({"engine": "loom", "body": name, "threads_ops": ops, "preemption_bound": bound, "replay": format!("{exe} run {name} --preemptions {bound}"), "exit": format!("{:?}", o.status), "stderr_tail": tail(&stderr), "stdout_tail": tail(&stdout)}),
-                            format!("loom body {name} (preemption bound {bound}) died ({:?}): deadlock, leak or panic in a schedule — {}", o.status, stderr.lines().find(|l| l.contains("panicked")).unwrap_or("")),
-                        )
-                    });
-                }
-            }
-        }
-    }
-    out
-}
-
 fn main() {
     let run = Run::new("C12", "model_checking");
     quiet_panics();
@@ -686,6 +601,18 @@ fn main() {
     let root_dir = PathBuf::from(format!("/dev/shm/vh-c12-{}", std::process::id()));
     let _ = std::fs::remove_dir_all(&root_dir);
 
+    if std::env::var("VH_C12_BENCH").is_ok() {
+        let cx = Ctx { run: &run, distinct: &distinct, root_dir: root_dir.clone() };
+        let ops = vec![Op::V(Req { p: 0, s: 1, h: 1, off: 0 }), Op::V(Req { p: 0, s: 2, h: 1, off: 0 }), Op::SyncReload, Op::Cleanup];
+        for h in [vec![], vec![0], vec![0, 1, 3], vec![0, 2], vec![0, 2, 1]] {
+            let t = std::time::Instant::now();
+            for _ in 0..5000 {
+                step(&cx, 0, &ops, &h);
+            }
+            eprintln!("bench {h:?}: {:.1} us/step", t.elapsed().as_secs_f64() * 1e6 / 5000.0);
+        }
+        std::process::exit(0);
+    }
     // ---- Part 2 first (small, bounded): loom bodies in child processes
     let loom = run_loom(&run, "C12", run.tier.pick(40, 900));
     if !loom.incomplete.is_empty() {
@@ -723,17 +650,32 @@ fn main() {
             ops.push(Op::B(vec![*r1, *r2]));
         }
     }
-    let depth = run.tier.pick(4, 6);
-    let budget = Budget::new(Duration::from_secs(run.tier.pick(42, 1500)));
+    // "core" operations: everything except two-request batches, of which only "the same (peer, seq) twice, both in
+    // the time window" stay. Histories up to `full_depth` use the full alphabet; deeper levels extend with core only.
+    let core: Vec<bool> = ops
+        .iter()
+        .map(|o| match o {
+            Op::B(rs) if rs.len() == 2 => rs[0].p == rs[1].p && rs[0].s == rs[1].s && rs[0].off == 0 && rs[1].off == 0,
+            _ => true,
+        })
+        .collect();
+    let n_core = core.iter().filter(|c| **c).count();
+    // per initial store: (full-alphabet depth, total depth)
+    let depths: [(usize, usize); 2] = run.tier.pick([(3, 4), (2, 3)], [(4, 6), (3, 5)]);
+    let budget = Budget::new(Duration::from_secs(run.tier.pick(52, 1700)).saturating_sub(run.elapsed()));
     let cx = Ctx { run: &run, distinct: &distinct, root_dir: root_dir.clone() };
     let replays = AtomicU64::new(0);
     let mut all_stats = Vec::new();
     for root in 0..2usize {
+        let (full_depth, depth) = depths[root];
         let stats = bfs(
             ops.len(),
             depth,
             &budget,
             |h: &[usize]| {
+                if h.len() > full_depth && !core[h[h.len() - 1]] {
+                    return None;
+                }
                 replays.fetch_add(1, Ordering::Relaxed);
                 step(&cx, root, &ops, h)
             },
@@ -749,7 +691,7 @@ fn main() {
     }
     let _ = std::fs::remove_dir_all(&root_dir);
     if budget.was_hit() {
-        run.cap_hit(format!("wall-clock budget; BFS completed depths {:?} of {}", all_stats.iter().map(|s| s.completed_depth).collect::<Vec<_>>(), depth));
+        run.cap_hit(format!("wall-clock budget; BFS completed depths {:?} of {:?}", all_stats.iter().map(|s| s.completed_depth).collect::<Vec<_>>(), depths.iter().map(|d| d.1).collect::<Vec<_>>()));
         if all_stats[0].completed_depth == 0 {
             run.machinery_error("not even depth 1 completed");
         }
@@ -777,7 +719,7 @@ fn main() {
         ("rule", json!("evaluation = one judged submission / cleanup / reload as LAST operation of a history; distinct = distinct (entry point, observed class, applicable rejection set, must-accept) tuples resp. (reload kind, marks before/after)")),
         (
             "bounds",
-            json!({"bfs_depth": depth, "bfs_completed_depth": all_stats.iter().map(|s| s.completed_depth).collect::<Vec<_>>(), "fixpoint": all_stats.iter().map(|s| s.fixpoint).collect::<Vec<_>>(),
+            json!({"bfs_depth_per_initial_store": depths.iter().map(|d| d.1).collect::<Vec<_>>(), "full_alphabet_to_depth_per_initial_store": depths.iter().map(|d| d.0).collect::<Vec<_>>(), "core_ops_beyond": n_core, "bfs_completed_depth": all_stats.iter().map(|s| s.completed_depth).collect::<Vec<_>>(), "fixpoint": all_stats.iter().map(|s| s.fixpoint).collect::<Vec<_>>(),
                 "alphabet_ops": ops.len(), "request_alphabet": reqs.len(), "peers": 2, "sequences": SEQS, "hash_timestamp_variants": stamp_variants, "operation_kinds": kinds,
                 "initial_stores": ["no file", "file with A at 2 written > 1 h ago"],
                 "bfs_states": all_stats.iter().map(|s| s.states).collect::<Vec<_>>(), "bfs_transitions": all_stats.iter().map(|s| s.transitions).collect::<Vec<_>>(),
